@@ -479,3 +479,48 @@ pub fn evidence_json(
 pub fn boxed<S: Strategy + 'static>(s: S) -> BoxedStrategy<S::Value> {
     s.boxed()
 }
+
+
+// ------------------------------------------------------------------------------------------
+// logging switched on: the library's log statements are executed (arguments evaluated, records
+// formatted) - defects hidden in logging code only show when a logger is active
+
+struct Sink;
+impl log::Log for Sink {
+    fn enabled(&self, _: &log::Metadata) -> bool {
+        true
+    }
+    fn log(&self, r: &log::Record) {
+        if r.level() <= log::Level::Debug {
+            let s = r.args().to_string();
+            std::hint::black_box(s);
+        }
+    }
+    fn flush(&self) {}
+}
+static SINK: Sink = Sink;
+
+/// Wraps a part: while it runs, a logger that formats every record up to debug level (and lets the
+/// arguments of trace records be evaluated) is active. Parts run one after another, so the global
+/// switch does not leak into other parts.
+pub struct Logged(pub Box<dyn DynPart>);
+
+impl DynPart for Logged {
+    fn name(&self) -> &str {
+        self.0.name()
+    }
+    fn run(&self, ctx: &Ctx, stats: &mut Stats) -> Option<Failure> {
+        let _ = log::set_logger(&SINK);
+        log::set_max_level(log::LevelFilter::Trace);
+        let r = self.0.run(ctx, stats);
+        log::set_max_level(log::LevelFilter::Off);
+        r
+    }
+    fn replay(&self, case: &Value) -> Result<CheckResult, String> {
+        let _ = log::set_logger(&SINK);
+        log::set_max_level(log::LevelFilter::Trace);
+        let r = self.0.replay(case);
+        log::set_max_level(log::LevelFilter::Off);
+        r
+    }
+}
